@@ -15,7 +15,7 @@ res() { echo "\"$1\": \"$2\","; }
 {
 echo "{"
 res head "$(git -C /repo rev-parse --short HEAD)"
-if git apply "$S/patch.diff" 2>/dev/null; then res patch_applies yes; else res patch_applies no; fi
+if git apply "$S/patch.diff" 2>/dev/null || git apply --3way "$S/patch.diff" 2>/dev/null; then res patch_applies yes; else res patch_applies no; fi
 t1=$(cargo test --offline 2>&1 | grep -E '^test result' | tr '\n' ' ')
 res suite_default_with_change "$t1"
 t2=$(cargo test --offline --all-features 2>&1 | grep -E '^test result' | tr '\n' ' ')
@@ -23,7 +23,7 @@ res suite_allfeatures_with_change "$t2"
 cp "$S/seeded_demo.rs" tests/seeded_demo.rs
 d1=$(cargo test --offline $demo_args --test seeded_demo 2>&1 | grep -E '^test result' | tr '\n' ' ')
 res demo_with_change "$d1"
-git apply -R "$S/patch.diff"
+git checkout -q -- src 2>/dev/null; git reset -q 2>/dev/null; git checkout -q -- src
 d2=$(cargo test --offline $demo_args --test seeded_demo 2>&1 | grep -E '^test result' | tr '\n' ' ')
 res demo_without_change "$d2"
 echo "\"demo_args\": \"$demo_args\""
